@@ -10,10 +10,10 @@ CONSTANTS
   MaxFrames = 1
   Threads = {1}
   MaxStall = 1
-  Chunking = "all"
+  Chunking = "@@CHUNK@@"
   Dev = {}
   Emit = FALSE
 SPECIFICATION Spec
-INVARIANTS TypeOK C01 AllocBound ProgressPossible
+INVARIANTS TypeOK C01 AllocBound MsgDrained ProgressPossible
 PROPERTY Termination
 CHECK_DEADLOCK FALSE
